@@ -34,6 +34,8 @@ BpPaths == {[abs |-> ab, parts |-> <<x>>] : ab \in BOOLEAN, x \in BpComps}
            \cup {[abs |-> ab, parts |-> <<x, y>>] : ab \in BOOLEAN, x \in BpComps, y \in BpComps}
            \cup {[abs |-> ab, parts |-> <<"..", "..", y>>] : ab \in BOOLEAN, y \in {"s", "a", "w"}}
            \cup {[abs |-> ab, parts |-> <<"a", "..", "..", y>>] : ab \in BOOLEAN, y \in {"s", "B"}}
+           \* virtual paths that happen to begin with the base's own path
+           \cup {AbsP(<<"w", "B">> \o t) : t \in {<<>>, <<"a">>, <<"..", "s">>, <<"..", "..", "s">>, <<"..", "a", "n">>, <<"f">>}}
            \cup {AbsP(<<>>)}
 BpCalls ==
     {[C0 EXCEPT !.op = o, !.p = p] : o \in {"stat", "lstat", "readfile", "readdir", "remove", "removeall", "chdir", "create",
@@ -72,6 +74,7 @@ WrapCalls(s) ==
     \cup {[C0 EXCEPT !.op = "mkdirall", !.p = p, !.perm = 493] : p \in Paths}
     \cup {[C0 EXCEPT !.op = "openclose", !.p = p, !.flag = f, !.perm = 420] : p \in Paths, f \in FlagSets}
     \cup {[C0 EXCEPT !.op = "open", !.p = p, !.flag = <<"RDONLY">>] : p \in Paths \cup {WorkP}}
+    \cup {[C0 EXCEPT !.op = "open", !.p = p, !.flag = f, !.perm = 420] : p \in Paths, f \in {<<"RDWR">>, <<"WRONLY", "CREATE">>}}
     \cup {[C0 EXCEPT !.op = "create", !.p = p] : p \in Paths}
     \cup {[C0 EXCEPT !.op = "writefile", !.p = p, !.data = <<3>>, !.perm = 420] : p \in Paths}
     \cup {[C0 EXCEPT !.op = o, !.p = p] : o \in {"remove", "removeall", "createtemp", "mkdirtemp", "stat", "lstat",
@@ -140,7 +143,8 @@ Call ==
           \* removing or moving the working directory (or an ancestor of it) is outside the universe
           /\ ~(c.op \in {"remove", "removeall", "rename"} /\ rp.err = "ok" /\ rp.id # Root /\ rp.id \in Range(st.cwd))
           \* under a fault plan only calls that consult the planned primitive are of interest
-          /\ ((w # "sub" /\ wx.plan.fn # "none") => \E i \in DOMAIN o.cons : o.cons[i] = wx.plan.fn)
+          \* (opening a handle is allowed too: the File primitives can only be consulted on one)
+          /\ ((w # "sub" /\ wx.plan.fn # "none") => (c.op = "open" \/ \E i \in DOMAIN o.cons : o.cons[i] = wx.plan.fn))
           /\ st' = o.st /\ wh' = Append(wh, c) /\ last' = [call |-> c, res |-> o.res] /\ wx' = o.x /\ UNCHANGED <<hist, w>>
           /\ Emit([hist |-> hist, wrap |-> WrapName, wh |-> wh, call |-> c, res |-> o.res, pre |-> Proj(st),
                    post |-> Proj(o.st), cwd |-> CwdPath(o.st), cons |-> o.cons, hs |-> HObs(o.st), um |-> o.st.umask])
